@@ -20,6 +20,9 @@ Oracle (independent of the model): brute-force enumeration of all size vectors a
 (single=1, optional=0|1, variadic>=0, same-size option => all variadic/optional sizes equal, attr-sized
 => the vector is the attribute, sum = number of arguments) and a direct check of constraints with
 consistent variables on the resulting pieces.
+(b') integer variables: definitions in which several variadic/optional segments (operands, results,
+region entry arguments) and IntAttr properties share a length variable, with EVERY mix of lengths 0..3
+(quick: a seeded half of them); the random definitions of (b)/(c) also carry length constraints.
 Non-trivial: the construct has a variadic/optional definition or a segment option, or a constraint
 variable is used twice; distinct = distinct (definition, instance) pair.
 """
@@ -60,8 +63,11 @@ META = {
         "Trusted: Coq kernel; hand-written model; correspondence harness. Constraints on individual pieces are "
         "abstract predicates plus VarConstraint equality (AnyAttr/EqAttrConstraint/AnyOf/VarConstraint are "
         "exercised); hypothesis of the whole-verify theorem: all uses of one constraint variable carry the same "
-        "base constraint. Not covered: traits, custom verify_, RangeVarConstraint/RangeLengthConstraint/int "
-        "variables, default property values, definitions declaring both options for one construct, "
+        "base constraint. Integer constraint variables are covered: IntVarConstraint through "
+        "RangeOf(c).of_length(..) on variadic/optional operand/result segments and region entry arguments and "
+        "through IntAttr.constr(..) on properties/attributes (bind on first occurrence, 0 included, compare later). "
+        "Not covered: traits, custom verify_, RangeVarConstraint, ArrayAttr.constr(..of_length..) properties, "
+        "AtLeast/AtMost int bases (AnyInt/IntSetConstraint are exercised), default property values, definitions declaring both options for one construct, "
         "Operation.verify's own structural checks (terminators, successors' parents)."),
 }
 COQ_TARGETS = ["C10/Enc.vo", "C10/Proofs.vo", "C10/ProofsAcc.vo", "C10/ProofsVerify.vo", "Props/C10.vo"]
@@ -131,6 +137,44 @@ def py_constr(allowed, var):
     return base if var is None else VarConstraint(f"V{var}", base)
 
 
+def d_arg(e):
+    """operand/result entry -> (kind, allowed, var, length) ; length = None | [int_allowed, int_var]"""
+    return e[0], e[1], e[2], (e[3] if len(e) > 3 else None)
+
+
+def d_reg(e):
+    return e[0], e[1], e[2], e[3], (e[4] if len(e) > 4 else None)
+
+
+def d_named(e):
+    """property/attribute entry -> (optional, allowed, var, is_int): is_int = IntAttr.constr(<int constraint>),
+    allowed/var then describe the INT constraint"""
+    return e[0], e[1], e[2], (len(e) > 3 and e[3] == "int")
+
+
+def py_iconstr(lc):
+    """[allowed ints | None, int variable | None] -> IntConstraint (IntVarConstraint("N<i>", base) / base)"""
+    from xdsl.irdl import AnyInt, IntSetConstraint, IntVarConstraint
+    allowed, ivar = lc
+    base = AnyInt() if allowed is None else IntSetConstraint(frozenset(allowed))
+    return base if ivar is None else IntVarConstraint(f"N{ivar}", base)
+
+
+def py_range(allowed, var, length):
+    """the constraint handed to var_/opt_ definitions: a plain constraint or RangeOf(c).of_length(<int constr>)"""
+    from xdsl.irdl import RangeOf
+    c = py_constr(allowed, var)
+    return c if length is None else RangeOf(c).of_length(py_iconstr(length))
+
+
+def val(v):
+    """value id -> attribute: type ids < 1000, 1000 + k = IntAttr(k)"""
+    if v >= 1000:
+        from xdsl.dialects.builtin import IntAttr
+        return IntAttr(v - 1000)
+    return types()[v]
+
+
 def option_obj(construct: int, opt: str, as_prop: bool):
     from xdsl.irdl import operations as O
     if opt == "same":
@@ -165,22 +209,32 @@ def make_class(defn: dict):
             options.append(o)
     if defn.get("options_first", True):
         ns["irdl_options"] = tuple(options)
-    for i, (k, allowed, var) in enumerate(defn["operands"]):
+    for i, e in enumerate(defn["operands"]):
+        k, allowed, var, length = d_arg(e)
         f = {"S": I.operand_def, "O": I.opt_operand_def, "V": I.var_operand_def}[k]
-        ns[f"o{i}"] = f(py_constr(allowed, var))
-    for i, (k, allowed, var) in enumerate(defn["results"]):
+        ns[f"o{i}"] = f(py_range(allowed, var, length))
+    for i, e in enumerate(defn["results"]):
+        k, allowed, var, length = d_arg(e)
         f = {"S": I.result_def, "O": I.opt_result_def, "V": I.var_result_def}[k]
-        ns[f"r{i}"] = f(py_constr(allowed, var))
-    for i, (k, single, allowed, var) in enumerate(defn["regions"]):
+        ns[f"r{i}"] = f(py_range(allowed, var, length))
+    for i, e in enumerate(defn["regions"]):
+        k, single, allowed, var, length = d_reg(e)
         f = {"S": I.region_def, "O": I.opt_region_def, "V": I.var_region_def}[k]
-        ns[f"g{i}"] = f("single_block" if single else None, entry_args=RangeOf(py_constr(allowed, var)))
+        ea = RangeOf(py_constr(allowed, var))
+        ns[f"g{i}"] = f("single_block" if single else None,
+                        entry_args=ea if length is None else ea.of_length(py_iconstr(length)))
     for i, k in enumerate(defn["succs"]):
         f = {"S": I.successor_def, "O": I.opt_successor_def, "V": I.var_successor_def}[k]
         ns[f"s{i}"] = f()
-    for i, (optional, allowed, var) in enumerate(defn["props"]):
-        ns[f"p{i}"] = (I.opt_prop_def if optional else I.prop_def)(py_constr(allowed, var))
-    for i, (optional, allowed, var) in enumerate(defn["attrs"]):
-        ns[f"a{i}"] = (I.opt_attr_def if optional else I.attr_def)(py_constr(allowed, var))
+    from xdsl.dialects.builtin import IntAttr
+    for i, e in enumerate(defn["props"]):
+        optional, allowed, var, is_int = d_named(e)
+        c = IntAttr.constr(py_iconstr([allowed, var])) if is_int else py_constr(allowed, var)
+        ns[f"p{i}"] = (I.opt_prop_def if optional else I.prop_def)(c)
+    for i, e in enumerate(defn["attrs"]):
+        optional, allowed, var, is_int = d_named(e)
+        c = IntAttr.constr(py_iconstr([allowed, var])) if is_int else py_constr(allowed, var)
+        ns[f"a{i}"] = (I.opt_attr_def if optional else I.attr_def)(c)
     if not defn.get("options_first", True):
         ns["irdl_options"] = tuple(options)
     try:
@@ -220,10 +274,10 @@ def create_instance(cls, defn, inst):
     props, attrs = {}, {}
     for i, v in enumerate(inst["props"]):
         if v is not None:
-            props[f"p{i}"] = T[v]
+            props[f"p{i}"] = val(v)
     for i, v in enumerate(inst["attrs"]):
         if v is not None:
-            attrs[f"a{i}"] = T[v]
+            attrs[f"a{i}"] = val(v)
     if inst["extra_prop"]:
         props["zz_extra"] = T[1]
     for ci, (segk, optk) in enumerate([("opseg", "opopt"), ("resseg", "resopt"), ("regseg", "regopt"),
@@ -312,8 +366,8 @@ def build_impl(case):
         if a[0] == "one":
             return mk(a[1])
         return [mk(x) for x in a[1]]
-    props = {f"p{i}": (None if v is None else T[v]) for i, v in enumerate(b["props"])}
-    attrs = {f"a{i}": (None if v is None else T[v]) for i, v in enumerate(b["attrs"])}
+    props = {f"p{i}": (None if v is None else val(v)) for i, v in enumerate(b["props"])}
+    attrs = {f"a{i}": (None if v is None else val(v)) for i, v in enumerate(b["attrs"])}
     if b["extra_prop"]:
         props["zz_extra"] = T[1]
     for ci, (segk, optk) in enumerate([("opseg", "opopt"), ("resseg", "resopt"), ("regseg", "regopt"),
@@ -527,51 +581,84 @@ def def_kinds(defn, ci):
     return "".join(d[0] for d in defn[["operands", "results", "regions"][ci]])
 
 
+def def_slots(defn):
+    """every constraint of a definition as (space, allowed, var): space "V" = attribute constraint /
+    attribute variable, "N" = int constraint / int variable (segment lengths, IntAttr payloads)"""
+    out = []
+    for fld in ("operands", "results"):
+        for e in defn[fld]:
+            k, a, v, ln = d_arg(e)
+            out.append(("V", a, v))
+            if ln is not None and k != "S":
+                out.append(("N", ln[0], ln[1]))
+    for e in defn["regions"]:
+        k, single, a, v, ln = d_reg(e)
+        out.append(("V", a, v))
+        if ln is not None:
+            out.append(("N", ln[0], ln[1]))
+    for fld in ("props", "attrs"):
+        for e in defn[fld]:
+            o, a, v, is_int = d_named(e)
+            out.append(("N" if is_int else "V", a, v))
+    return out
+
+
 def var_bases_consistent(defn):
     seen = {}
-    slots = ([(a, v) for _, a, v in defn["operands"]] + [(a, v) for _, a, v in defn["results"]]
-             + [(a, v) for _, _, a, v in defn["regions"]] + [(a, v) for _, a, v in defn["props"]]
-             + [(a, v) for _, a, v in defn["attrs"]])
-    for a, v in slots:
+    for space, a, v in def_slots(defn):
         if v is None:
             continue
         key = None if a is None else tuple(sorted(a))
-        if seen.setdefault(v, key) != key:
+        if seen.setdefault((space, v), key) != key:
             return False
     return True
 
 
 def pieces_ok(defn, segs, inst):
-    """constraints on every piece / property / attribute with one consistent variable assignment"""
-    pairs = []      # (allowed, var, value)
+    """constraints on every piece, segment length, property and attribute with ONE assignment of the
+    attribute variables and of the int variables (independent reference: collect (space, allowed, var,
+    value) tuples, every value must be allowed and all values of one variable must coincide -- a variable
+    whose first value is 0 is a bound variable like any other)"""
+    pairs = []      # (space, allowed, var, value)
     for fld, sizes, vals in [("operands", segs[0], inst["operands"]), ("results", segs[1], inst["results"])]:
         start = 0
-        for (k, allowed, var), s in zip(defn[fld], sizes):
-            pairs += [(allowed, var, t) for t in vals[start:start + s]]
+        for e, s in zip(defn[fld], sizes):
+            k, allowed, var, ln = d_arg(e)
+            if ln is not None and k != "S":
+                pairs.append(("N", ln[0], ln[1], s))
+            pairs += [("V", allowed, var, t) for t in vals[start:start + s]]
             start += s
     start = 0
-    for (k, single, allowed, var), s in zip(defn["regions"], segs[2]):
+    for e, s in zip(defn["regions"], segs[2]):
+        k, single, allowed, var, ln = d_reg(e)
         for r in inst["regions"][start:start + s]:
             if single and len(r) != 1:
                 return False, "a single-block region definition got a region with %d blocks" % len(r)
             if r:
-                pairs += [(allowed, var, t) for t in r[0]]
+                if ln is not None:
+                    pairs.append(("N", ln[0], ln[1], len(r[0])))
+                pairs += [("V", allowed, var, t) for t in r[0]]
         start += s
     for fld in ("props", "attrs"):
-        for (optional, allowed, var), v in zip(defn[fld], inst[fld]):
+        for e, v in zip(defn[fld], inst[fld]):
+            optional, allowed, var, is_int = d_named(e)
             if v is None:
                 if not optional:
                     return False, f"required {fld[:-1]} missing"
+            elif is_int:
+                if v < 1000:
+                    return False, f"{fld[:-1]} constrained to an IntAttr holds the non-IntAttr value {v}"
+                pairs.append(("N", allowed, var, v - 1000))
             else:
-                pairs.append((allowed, var, v))
+                pairs.append(("V", allowed, var, v))
     if inst["extra_prop"]:
         return False, "undeclared property present"
     sigma = {}
-    for allowed, var, t in pairs:
+    for space, allowed, var, t in pairs:
         if not allowed_ok(allowed, t):
             return False, f"value {t} not allowed by {allowed}"
-        if var is not None and sigma.setdefault(var, t) != t:
-            return False, f"variable V{var} bound to both {sigma[var]} and {t}"
+        if var is not None and sigma.setdefault((space, var), t) != t:
+            return False, f"variable {space}{var} bound to both {sigma[(space, var)]} and {t}"
     return True, ""
 
 
@@ -689,17 +776,19 @@ def in_kf2_class(kinds, opt):
     return opt == "same" and len(kinds) > 0 and all(k == "S" for k in kinds)
 
 
-def make_known(holds):
+def make_known(holds, active=("C10-kf-1", "C10-kf-2")):
+    """`active`: ids of the findings still open in known_findings*.json; a finding marked `fixed`
+    no longer excuses anything (a failure in its class is then a regression)"""
     def known(case, res):
         ok, why = holds(case, res)
-        if ok:
+        if ok or not active:
             return None
         views = _construct_views(case)
         flat = json.dumps(res)
         if any(in_kf2_class(k, o) for k, o, _, _ in views) and "[-1, 21]" in flat and \
                 (why.startswith("[same-") or why.startswith("[reject]")):
-            return "C10-kf-2"
-        if any(in_kf1_class(*v) for v in views) and \
+            return "C10-kf-2" if "C10-kf-2" in active else None
+        if "C10-kf-1" in active and any(in_kf1_class(*v) for v in views) and \
                 (why.startswith("[attr-") or why.startswith("[constraints]")):
             return "C10-kf-1"
         return None
@@ -731,13 +820,37 @@ def coq_optZ(v):
     return "None" if v is None else f"(Some {coq_Z(v)})"
 
 
+INT_KEY = 10      # model key of int variable N<i> is INT_KEY + i (attribute variable V<i> has key i)
+
+
+def coq_ic(lc):
+    """[allowed ints | None, int var | None] -> Coq int constraint (mkic), None -> None"""
+    if lc is None:
+        return "None"
+    allowed, ivar = lc
+    return f"(Some (mkic {coq_optlist(allowed)} {coq_optnat(None if ivar is None else INT_KEY + ivar)}))"
+
+
+def coq_named(e):
+    o, a, v, is_int = d_named(e)
+    if is_int:
+        return f"mknamed_int {coq_bool(o)} (mkic {coq_optlist(a)} {coq_optnat(None if v is None else INT_KEY + v)})"
+    return f"mknamed {coq_bool(o)} {coq_optlist(a)} {coq_optnat(v)}"
+
+
 def coq_def(defn):
-    ops = coq_list(f"mkarg {KIND[k]} {coq_optlist(a)} {coq_optnat(v)}" for k, a, v in defn["operands"])
-    rs = coq_list(f"mkarg {KIND[k]} {coq_optlist(a)} {coq_optnat(v)}" for k, a, v in defn["results"])
-    gs = coq_list(f"mkreg {KIND[k]} {coq_bool(s)} {coq_optlist(a)} {coq_optnat(v)}"
-                  for k, s, a, v in defn["regions"])
-    ps = coq_list(f"mknamed {coq_bool(o)} {coq_optlist(a)} {coq_optnat(v)}" for o, a, v in defn["props"])
-    as_ = coq_list(f"mknamed {coq_bool(o)} {coq_optlist(a)} {coq_optnat(v)}" for o, a, v in defn["attrs"])
+    def arg(e):
+        k, a, v, ln = d_arg(e)
+        return f"mkarg {KIND[k]} {coq_optlist(a)} {coq_optnat(v)} {coq_ic(ln if k != 'S' else None)}"
+
+    def reg(e):
+        k, sb, a, v, ln = d_reg(e)
+        return f"mkreg {KIND[k]} {coq_bool(sb)} {coq_optlist(a)} {coq_optnat(v)} {coq_ic(ln)}"
+    ops = coq_list(arg(e) for e in defn["operands"])
+    rs = coq_list(arg(e) for e in defn["results"])
+    gs = coq_list(reg(e) for e in defn["regions"])
+    ps = coq_list(coq_named(e) for e in defn["props"])
+    as_ = coq_list(coq_named(e) for e in defn["attrs"])
     return (f"(Build_opdef Z {ops} {OPT[defn['opopt'][0]]} {rs} {OPT[defn['resopt'][0]]} {gs} "
             f"{OPT[defn['regopt'][0]]} {coq_kinds(defn['succs'])} {OPT[defn['sucopt'][0]]} {ps} {as_})")
 
@@ -824,8 +937,27 @@ def gen_constr(rng, var_base):
     return allowed, var
 
 
+def gen_len(rng, ivar_base, p):
+    """an optional length constraint [allowed ints | None, int variable | None]"""
+    if rng.random() >= p:
+        return None
+    if rng.random() < 0.1:
+        return [rng.choice([[0, 1, 2], [1, 2], [0, 2, 3]]), None]
+    i = rng.choice([0, 0, 0, 1])
+    return [ivar_base[i], i]
+
+
+def gen_named(rng, var_base, ivar_base):
+    if rng.random() < 0.3:      # prop_def(IntAttr.constr(IntVarConstraint("N<i>", base)))
+        i = rng.choice([0, 0, 1])
+        return [rng.random() < 0.3, ivar_base[i], i, "int"]
+    return [rng.random() < 0.4, *gen_constr(rng, var_base)]
+
+
 def gen_def(rng):
     var_base = [rng.choice([None, None, [1, 2], [1, 2, 3], [2], [0, 1, 2], [1, 3, 4]]) for _ in range(3)]
+    ivar_base = [rng.choice([None, None, None, [0, 1, 2], [1, 2, 3], [0, 2]]) for _ in range(2)]
+    plen = rng.choice([0.0, 0.5, 0.8])      # a third of the definitions without any length constraint
     d = {}
     for fld, optk, w in [("operands", "opopt", 1.0), ("results", "resopt", 0.8), ("regions", "regopt", 0.35),
                          ("succs", "sucopt", 0.3)]:
@@ -840,29 +972,40 @@ def gen_def(rng):
         if fld == "succs":
             d[fld] = ks
         elif fld == "regions":
-            d[fld] = [[k, rng.random() < 0.4, *gen_constr(rng, var_base)] for k in ks]
+            d[fld] = [[k, rng.random() < 0.4, *gen_constr(rng, var_base), gen_len(rng, ivar_base, plen / 2)]
+                      for k in ks]
         else:
-            d[fld] = [[k, *gen_constr(rng, var_base)] for k in ks]
-    d["props"] = [[rng.random() < 0.4, *gen_constr(rng, var_base)] for _ in range(rng.choice([0, 0, 1, 2]))]
-    d["attrs"] = [[rng.random() < 0.4, *gen_constr(rng, var_base)] for _ in range(rng.choice([0, 0, 1, 2]))]
+            d[fld] = [[k, *gen_constr(rng, var_base), gen_len(rng, ivar_base, plen) if k != "S" else None]
+                      for k in ks]
+    npa = rng.choice([0, 0, 1, 2])
+    d["props"] = [gen_named(rng, var_base, ivar_base) if plen else [rng.random() < 0.4, *gen_constr(rng, var_base)]
+                  for _ in range(npa)]
+    d["attrs"] = [gen_named(rng, var_base, ivar_base) if plen else [rng.random() < 0.4, *gen_constr(rng, var_base)]
+                  for _ in range(rng.choice([0, 0, 1, 2]))]
     d["options_first"] = rng.random() < 0.7
     return d
 
 
-def gen_sizes(rng, kinds, opt):
+def gen_sizes(rng, kinds, opt, forced=None):
+    """sizes obeying the kinds and the option; `forced` (parallel to kinds) = sizes wished by shared
+    length variables, followed when the kind/option allows"""
+    forced = forced or [None] * len(kinds)
     k = rng.choice([0, 1, 1, 2, 3])
+    wish = [f for c, f in zip(kinds, forced) if c != "S" and f is not None]
+    if wish:
+        k = wish[0]
     if opt == "same" and "O" in kinds:
-        k = rng.choice([0, 1])
+        k = k if k in (0, 1) else rng.choice([0, 1])
     out = []
-    for c in kinds:
+    for c, f in zip(kinds, forced):
         if c == "S":
             out.append(1)
         elif opt == "same":
             out.append(k)
         elif c == "O":
-            out.append(rng.choice([0, 1]))
+            out.append(f if f in (0, 1) else rng.choice([0, 1]))
         else:
-            out.append(rng.choice([0, 1, 1, 2, 3]))
+            out.append(f if f is not None else rng.choice([0, 1, 1, 2, 3]))
     return out
 
 
@@ -876,27 +1019,53 @@ def pick_value(rng, allowed, var, sigma):
 
 
 def gen_pieces(rng, defn):
-    """a mostly valid family of pieces for every construct (sizes obey the definition)"""
+    """a mostly valid family of pieces for every construct (sizes obey the definition; segments sharing
+    a length variable mostly get the variable's value, drawn from 0..3)"""
     sigma = {}
+    nvals = {i: rng.choice([0, 1, 2, 3]) for i in range(2)}
+
+    def wish(ln):
+        if ln is None or ln[1] is None or rng.random() < 0.15:
+            return None
+        return nvals[ln[1]]
     P = {}
     for fld, optk in [("operands", "opopt"), ("results", "resopt")]:
-        kinds = "".join(x[0] for x in defn[fld])
-        sizes = gen_sizes(rng, kinds, defn[optk][0])
-        P[fld] = [[pick_value(rng, a, v, sigma) for _ in range(s)] for (k, a, v), s in zip(defn[fld], sizes)]
-    kinds = "".join(x[0] for x in defn["regions"])
+        ents = [d_arg(e) for e in defn[fld]]
+        kinds = "".join(e[0] for e in ents)
+        sizes = gen_sizes(rng, kinds, defn[optk][0], [wish(e[3]) for e in ents])
+        P[fld] = [[pick_value(rng, a, v, sigma) for _ in range(s)] for (k, a, v, ln), s in zip(ents, sizes)]
+    ents = [d_reg(e) for e in defn["regions"]]
+    kinds = "".join(e[0] for e in ents)
     sizes = gen_sizes(rng, kinds, defn["regopt"][0])
     P["regions"] = []
-    for (k, single, a, v), s in zip(defn["regions"], sizes):
+    for (k, single, a, v, ln), s in zip(ents, sizes):
         seg = []
         for _ in range(s):
             nb = 1 if (single and rng.random() < 0.9) else rng.choice([0, 1, 1, 2])
-            seg.append([[pick_value(rng, a, v, sigma) for _ in range(rng.choice([0, 1, 2]))] if bi == 0
-                        else [rng.randrange(NTYPES) for _ in range(rng.choice([0, 1]))] for bi in range(nb)])
+            w = wish(ln)
+            seg.append([[pick_value(rng, a, v, sigma) for _ in range(rng.choice([0, 1, 2]) if w is None else w)]
+                        if bi == 0 else [rng.randrange(NTYPES) for _ in range(rng.choice([0, 1]))]
+                        for bi in range(nb)])
         P["regions"].append(seg)
     sizes = gen_sizes(rng, defn["succs"], defn["sucopt"][0])
     P["succs"] = [[0] * s for s in sizes]
     for fld in ("props", "attrs"):
-        P[fld] = [None if (o and rng.random() < 0.5) else pick_value(rng, a, v, sigma) for o, a, v in defn[fld]]
+        P[fld] = []
+        for e in defn[fld]:
+            o, a, v, is_int = d_named(e)
+            if o and rng.random() < 0.5:
+                P[fld].append(None)
+            elif is_int:
+                r = rng.random()
+                if r < 0.05:
+                    P[fld].append(rng.randrange(NTYPES))                      # not an IntAttr
+                elif r < 0.8 and v is not None:
+                    P[fld].append(1000 + nvals[v])
+                else:
+                    P[fld].append(1000 + (rng.choice(a) if a is not None and rng.random() < 0.8
+                                          else rng.randrange(4)))
+            else:
+                P[fld].append(pick_value(rng, a, v, sigma) if rng.random() < 0.97 else 1000 + rng.randrange(3))
     return P
 
 
@@ -995,6 +1164,73 @@ def gen_buildargs(rng, defn):
     return b
 
 
+def len_family_defs(rng, n):
+    """definitions in which several variadic/optional segments -- spread over operands, results and
+    region entry arguments -- and possibly an IntAttr property share the length variable N0"""
+    defs = []
+    for j in range(n):
+        base = rng.choice([None, None, None, [0, 1, 2, 3], [0, 2, 3]])
+        ln = [base, 0]
+        d = {"operands": [], "opopt": ["none", False], "results": [], "resopt": ["none", False],
+             "regions": [], "regopt": ["none", False], "succs": "", "sucopt": ["none", False],
+             "props": [], "attrs": [], "options_first": True}
+        shape = j % 5 if j < 5 else rng.randrange(5)
+        seg = lambda k, l=ln: [k, None, None, l]
+        if shape == 0:      # three attr-sized variadic operand segments (the omp.* pattern)
+            d["operands"] = [seg("V"), seg("V"), seg("V")]
+            d["opopt"] = ["attr", rng.random() < 0.5]
+        elif shape == 1:    # two operand segments + one variadic result
+            d["operands"] = [seg("V"), ["S", None, None, None], seg("V")]
+            d["opopt"] = ["attr", rng.random() < 0.5]
+            d["results"] = [seg("V")]
+        elif shape == 2:    # optional operand + variadic result + IntAttr property
+            d["operands"] = [seg("O")]
+            d["results"] = [["S", None, None, None], seg("V")]
+            d["props"] = [[False, base, 0, "int"]]
+        elif shape == 3:    # variadic operand + region entry arguments + IntAttr attribute
+            d["operands"] = [seg("V")]
+            d["regions"] = [["S", False, None, None, ln]]
+            d["attrs"] = [[False, base, 0, "int"]]
+        else:               # same-size operands with a second variable on the results
+            d["operands"] = [seg("V"), seg("V")]
+            d["opopt"] = ["same", False]
+            d["results"] = [seg("V", [None, 1]), seg("V", [None, 1])]
+            d["resopt"] = ["attr", False]
+            d["props"] = [[False, None, 1, "int"]]
+        defs.append(d)
+    return defs
+
+
+def len_family_cases(rng, ndefs):
+    """every mix of lengths 0..3 (0/1 for optional segments, 0..3 block arguments, IntAttr payloads 0..3)"""
+    cases = []
+    for d in len_family_defs(rng, ndefs):
+        slots = []      # (where, index, choices)
+        for fld in ("operands", "results"):
+            for i, e in enumerate(d[fld]):
+                slots.append((fld, i, [1] if e[0] == "S" else [0, 1] if e[0] == "O" else [0, 1, 2, 3]))
+        for i, e in enumerate(d["regions"]):
+            slots.append(("regions", i, [0, 1, 2, 3, None]))       # block arguments; None = no block
+        for fld in ("props", "attrs"):
+            for i, e in enumerate(d[fld]):
+                slots.append((fld, i, [1000, 1001, 1002, 1003]))
+        if d["opopt"][0] == "same":        # operands all of one size
+            slots = [s for s in slots if s[0] != "operands"] + [("operands*", 0, [0, 1, 2, 3])]
+        for choice in itertools.product(*[c for _, _, c in slots]):
+            pick = {(w, i): v for (w, i, _), v in zip(slots, choice)}
+            inst = {"extra_prop": False, "nsucc": 0, "sucseg": ["missing"], "regseg": ["missing"]}
+            for fld, segk, optk in [("operands", "opseg", "opopt"), ("results", "resseg", "resopt")]:
+                sizes = [pick.get((fld, i), pick.get((fld + "*", 0))) for i in range(len(d[fld]))]
+                inst[fld] = [1] * sum(sizes)
+                inst[segk] = ["dense", True, sizes] if d[optk][0] == "attr" else ["missing"]
+            inst["regions"] = [([] if pick[("regions", i)] is None else [[1] * pick[("regions", i)]])
+                               for i in range(len(d["regions"]))]
+            inst["props"] = [pick[("props", i)] for i in range(len(d["props"]))]
+            inst["attrs"] = [pick[("attrs", i)] for i in range(len(d["attrs"]))]
+            cases.append({"def": d, "op": inst})
+    return cases
+
+
 # ---------------------------------------------------------------------------- driver
 SWEEP_VALS = [-1, 0, 1, 2, 3]
 NMAX = 5
@@ -1084,7 +1320,9 @@ def registered_cases(rng, per_construct):
 def run(ctx: Ctx):
     thorough = ctx.tier == "thorough"
     rng = ctx.rng
-    k_sizes, k_verify, k_build = make_known(sizes_holds), make_known(verify_holds), make_known(build_holds)
+    active = tuple(sorted({e["id"] for e in ctx.known_findings}))      # fixed findings excuse nothing
+    k_sizes, k_verify, k_build = (make_known(sizes_holds, active), make_known(verify_holds, active),
+                                  make_known(build_holds, active))
     replay_findings(ctx, "sizes", sizes_impl, sizes_holds)
     replay_findings(ctx, "verify", verify_impl, verify_holds)
     replay_findings(ctx, "build", build_impl, build_holds)
@@ -1093,7 +1331,7 @@ def run(ctx: Ctx):
     sweep_differential(ctx, f"sizes-exhaustive-defs<=3-n<=5{'' if thorough else '-len3-sampled'}", REQ, shards,
                        sizes_impl, sizes_holds, k_sizes, sizes_nontrivial, exhaustive=True)
     # (b) random whole definitions and instances
-    nd = 300 if thorough else 100
+    nd = 300 if thorough else 80
     per = 10 if thorough else 5
     vcases, bcases = [], []
     for _ in range(nd):
@@ -1105,6 +1343,13 @@ def run(ctx: Ctx):
     differential(ctx, DiffSpec("verify-random-definitions", REQ, vcases, verify_impl,
                                lambda c: f"c10_verify {coq_ver()} {coq_def(c['def'])} {coq_inst(c['op'])}",
                                verify_holds, k_verify, op_nontrivial, shard=150))
+    # (b') integer variables: every mix of lengths 0..3 over segments sharing a length variable
+    lcases = len_family_cases(rng, 12 if thorough else 5)
+    if not thorough:
+        lcases = [c for i, c in enumerate(lcases) if i % 2 == rng.randrange(2) or rng.random() < 0.25]
+    differential(ctx, DiffSpec("length-variables-all-mixes-0..3", REQ, lcases, verify_impl,
+                               lambda c: f"c10_verify {coq_ver()} {coq_def(c['def'])} {coq_inst(c['op'])}",
+                               verify_holds, k_verify, op_nontrivial, shard=120))
     # (c) the generated constructor
     differential(ctx, DiffSpec("build-random-definitions", REQ, bcases, build_impl,
                                lambda c: f"c10_build {coq_ver()} {coq_def(c['def'])} {coq_bargs(c['args'])}",
